@@ -327,6 +327,12 @@ func (gb *gcpBalancer) newSubConn() {
 	gb.mu.Lock()
 	defer gb.mu.Unlock()
 
+	// The caller checked the pool size before taking the lock; concurrent picks may have
+	// grown the pool since then.
+	if maxSize := gb.cfg.GetChannelPool().GetMaxSize(); maxSize != 0 && len(gb.scRefs) >= int(maxSize) {
+		return
+	}
+
 	// there are chances the newly created subconns are still connecting,
 	// we can wait on those new subconns.
 	for _, scState := range gb.scStates {
